@@ -27,6 +27,14 @@ class World:
         self.q = f(tag + "q", 1, 65535)
         self.ports = {"p": self.p, "q": self.q, "p2": self.p + 2}
         self.groups = {"G1": [("X", m2i("0.0.0.255")), ("Y", 0)], "G2": [("Xh", 0)]}
+        self.tag = tag
+        self._protos = {}
+
+    def proto(self, name):
+        """number of a protocol written numerically: n1/n2 are free over 143..252 (no platform has a keyword there)"""
+        if name not in self._protos:
+            self._protos[name] = self.ctx.fresh(self.tag + name, 143, 252)
+        return self._protos[name]
 
     def group_members(self, name):
         """[(base value, mask)] of an address group"""
@@ -34,6 +42,9 @@ class World:
 
     def group_lines(self, name):
         return [("host " + self.txt[b]) if m == 0 else (self.txt[b] + " " + i2m(m)) for b, m in self.groups[name]]
+
+
+NUMERIC_PROTOS = ("n1", "n2")
 
 
 def A(act, proto="ip", src="any", dst="any", dport=None, sport=None, flags=(), log=""):
@@ -100,7 +111,7 @@ def line_text(w, spec, platform, seq=None):
     if spec["kind"] == "remark":
         body = "remark " + spec["text"]
     else:
-        toks = [spec["act"], spec["proto"], _addr_text(w, spec["src"], platform), _port_text(w, spec["sport"]),
+        toks = [spec["act"], (T.num(w.proto(spec["proto"])) if spec["proto"] in NUMERIC_PROTOS else spec["proto"]), _addr_text(w, spec["src"], platform), _port_text(w, spec["sport"]),
                 _addr_text(w, spec["dst"], platform), _port_text(w, spec["dport"])] + spec["flags"] + ([spec["log"]] if spec["log"] else [])
         body = T.join(toks)
     if seq is not None:
@@ -111,7 +122,7 @@ def line_text(w, spec, platform, seq=None):
 def line_rule(w, spec, seq=0):
     if spec["kind"] == "remark":
         return None
-    return Rule(spec["act"], tb.PROTO[spec["proto"]], _addr_pred(w, spec["src"]), _addr_pred(w, spec["dst"]),
+    return Rule(spec["act"], (w.proto(spec["proto"]) if spec["proto"] in NUMERIC_PROTOS else tb.PROTO[spec["proto"]]), _addr_pred(w, spec["src"]), _addr_pred(w, spec["dst"]),
                 _port_pred(w, spec["sport"]), _port_pred(w, spec["dport"]), spec["flags"], seq, [spec["log"]] if spec["log"] else [])
 
 
@@ -148,6 +159,9 @@ CONV_TEMPLATES = {
     # multi-port eq entries (split into adjacent single-port entries on NX-OS)
     "multi": [A("permit", "tcp", src=X24, dport=("eq", ["p", "q"])), R("note"), A("deny", "tcp", dport=("eq", ["q"])),
               A("permit", "udp", sport=("eq", ["p", "p2"]), dst=("h", "Y")), A("deny", "ip")],
+    # multi-port eq entries inside blocks made by group_by, each block holding a heading and a plain remark
+    "grouped-multi": [R("= g1"), A("permit", "tcp", src=X24, dport=("eq", ["p", "q"])), R("note in g1"), A("deny", "tcp", dport=("eq", ["q"])),
+                      R("= g2"), R("note in g2"), A("permit", "udp", sport=("eq", ["p", "p2"]), dst=("h", "Y")), A("deny", "ip")],
     # address groups inside blocks made by group_by
     "grouped-ag": [R("= g1"), A("permit", src=X24), A("permit", src=("g", "G1")), R("= g2"), A("deny", src=("g", "G2")), A("deny", "ip")],
     # groups on the destination side and on both sides with different members
@@ -165,6 +179,9 @@ TEMPLATES = {
     # IOS only: a multi-port eq entry leaving a gap above single-port entries that may fall into the gap
     "port-gap": [A("permit", "tcp", dport=("eq", ["p", "p2"])), A("permit", "tcp", dport=("eq", ["q"])), A("deny", "tcp", dport=("range", ["p", "p2"])),
                  A("permit", "tcp", dport=("eq", ["p"])), A("deny", "ip")],
+    # protocols written as numbers that have no keyword (two free numbers, equal or not), nested addresses
+    "numproto": [A("permit", "n1", src=X24), A("permit", "n2", src=("h", "Xh")), A("permit", "n1", src=("h", "Xh")), A("deny", "n2"),
+                 A("permit", "tcp", src=("h", "Xh")), A("deny", "n1", src=X24), A("permit", "ip")],
     # remarks, headings, log keyword, flags
     "mixed": [R("= g1, first"), A("permit", src=X24), R("note"), A("permit", src=("h", "Xh"), log="log"), R("= g2"),
               A("deny", "tcp", dst=("h", "Y"), flags=["ack"]), A("deny", "tcp", dst=("h", "Y"), flags=["ack", "syn"]), A("deny", "ip")],
